@@ -103,13 +103,16 @@ def ob(prop, name, body, params, timeout=300, fixed=None, kind="e2c"):
 
 
 def deepen(obs, dsteps=1):
-    """Thorough tier: every bounded-history obligation gets `dsteps` more completion events and a
-    longer budget; obligations with a single control request are partitioned by the kind and
-    boundary of the request so that each worker stays tractable."""
+    """Thorough tier: every bounded-history obligation gets `dsteps` more completion events, a
+    longer budget, and - where the harness does not already use crash points - one
+    persist/restore of the conductor at a symbolic boundary, so that the property's monitors must
+    also hold across a restart at any single point. Obligations with a control request are
+    partitioned by the kind and boundary of the request, the others by the restart boundary."""
     out = []
     for o in obs:
         p = o.get("params") or {}
-        if o.get("kind") != "e2c" or "steps" not in p or p.get("twin") or o.get("slice") or any(k in (o.get("fixed") or {}) for k in ("ctl_at", "crash_at")):
+        plain = o.get("kind") == "e2c" and "steps" in p and not p.get("twin") and not o.get("slice")
+        if not plain or any(k in (o.get("fixed") or {}) for k in ("ctl_at", "crash_at")):
             d = dict(o)
             d["timeout"] = float(o.get("timeout", 300)) * 3
             out.append(d)
@@ -117,8 +120,18 @@ def deepen(obs, dsteps=1):
         d = dict(o)
         d["params"] = dict(p, steps=p["steps"] + dsteps)
         d["timeout"] = float(o.get("timeout", 300)) * 4
+        history = o["body"].endswith((":lifecycle", ":justified", ":quiescence", ":terminal", ":cancel", ":contexts", ":joins", ":items", ":retry", ":append_only", ":pure"))
+        if history and "crash" not in p and "scenario" not in p:
+            d["params"]["crash"] = "one"
         if p.get("control") in ("pause", "cancel", "either") and not o.get("fixed"):
             out.extend(control_slices(d, d["params"]["steps"] + 2))
+        elif d["params"].get("crash") == "one" and not o.get("fixed"):
+            # positions 0..steps+1, plus the histories without a restart
+            out.extend(position_slices(d, "crash_at", d["params"]["steps"] + 2))
+            e = dict(d)
+            e["id"] = d["id"] + "@none"
+            e["fixed"] = {"crash_at": -1}
+            out.append(e)
         else:
             out.append(d)
     return out
